@@ -8,12 +8,51 @@ open Value Spec.Agg
 
 /-! ### exact keys -/
 
+theorem F64.cmp_eq_of_canonical {a b : Nat} (ha : a < 2^64) (hb : b < 2^64) (ha0 : a ≠ 2^63) (hb0 : b ≠ 2^63)
+    (han : F64.isNaN a = true → a = F64.canonNaN) (hbn : F64.isNaN b = true → b = F64.canonNaN)
+    (h : F64.cmp a b = .eq) : a = b := by
+  unfold F64.cmp at h
+  by_cases h1 : F64.isNaN a = true
+  · by_cases h2 : F64.isNaN b = true
+    · rw [han h1, hbn h2]
+    · simp [h1, h2] at h
+  · by_cases h2 : F64.isNaN b = true
+    · simp [h1, h2] at h
+    · simp only [h1, h2, Bool.false_eq_true, if_false, Int.compare_eq_eq] at h
+      unfold F64.key F64.mag F64.signBit at h
+      have ea := Nat.div_add_mod a (2^63)
+      have eb := Nat.div_add_mod b (2^63)
+      have ra : a % 2^63 < 2^63 := Nat.mod_lt _ (by decide)
+      have rb : b % 2^63 < 2^63 := Nat.mod_lt _ (by decide)
+      have qa : a / 2^63 < 2 := by omega
+      have qb : b / 2^63 < 2 := by omega
+      by_cases sa : a / 2^63 = 1 <;> by_cases sb : b / 2^63 = 1
+      · simp [sa, sb] at h; omega
+      · have : b / 2^63 = 0 := by omega
+        simp [sa, this] at h; omega
+      · have : a / 2^63 = 0 := by omega
+        simp [sb, this] at h; omega
+      · have e1 : a / 2^63 = 0 := by omega
+        have e2 : b / 2^63 = 0 := by omega
+        simp [e1, e2] at h; omega
 theorem cmp_eq_of_simple {a b : Value} (ha : simpleValue a = true) (hb : simpleValue b = true)
     (h : Value.cmp a b = .eq) : a = b := by
   have hr := rank_eq_of_cmp_eq h
   cases a <;> cases b <;> simp [rank] at hr <;> simp [simpleValue] at ha hb <;> simp only [Value.cmp] at h
   · rfl
   · rw [Int.compare_eq_eq] at h; rw [h]
+  · rename_i x y
+    have hx : x < 2^64 ∧ x ≠ 2^63 ∧ (F64.isNaN x = true → x = F64.canonNaN) := by
+      refine ⟨by simpa using ha.1.1, by simpa using ha.1.2, fun hn => ?_⟩
+      rcases ha.2 with h' | h'
+      · rw [hn] at h'; simp at h'
+      · exact h'
+    have hy : y < 2^64 ∧ y ≠ 2^63 ∧ (F64.isNaN y = true → y = F64.canonNaN) := by
+      refine ⟨by simpa using hb.1.1, by simpa using hb.1.2, fun hn => ?_⟩
+      rcases hb.2 with h' | h'
+      · rw [hn] at h'; simp at h'
+      · exact h'
+    rw [F64.cmp_eq_of_canonical hx.1 hy.1 hx.2.1 hy.2.1 hx.2.2 hy.2.2 h]
   · rw [cmpBool_eq_iff] at h; rw [h]
   · rw [cmpBytes_eq_iff] at h; rw [h]
   · simp only [Ordering.then_eq_eq, Int.compare_eq_eq] at h
